@@ -43,11 +43,12 @@ def mc_pipeline(draw, with_cbca):
 @st.composite
 def nested_cases(draw):
     pair = draw(gen.image_pair(min_rows=7, max_rows=14, min_cols=12, max_cols=20, max_val=20, masks=True))
+    pipe = mc_pipeline(draw, draw(st.booleans()))
     A = draw(st.integers(-5, 0))
-    B = A + draw(st.integers(1, 7))
+    A, B = gen.clamp_interval([A, A + draw(st.integers(1, 7))], pair["W"], pipe)
     a = draw(st.integers(A, B))
     b = draw(st.integers(a, B))
-    return {"pair": pair, "pipeline": mc_pipeline(draw, draw(st.booleans())), "big": [A, B], "small": [a, b]}
+    return {"pair": pair, "pipeline": pipe, "big": [A, B], "small": [a, b]}
 
 
 def nested_body(ctx: Ctx, p: dict) -> None:
@@ -76,8 +77,10 @@ def nested_body(ctx: Ctx, p: dict) -> None:
 
 
 @st.composite
-def grid_spec(draw, H, W, A, B):
+def grid_spec(draw, H, W, A, B, constant=None):
     kind = draw(st.sampled_from(["random", "random", "bands", "constant"]))
+    if constant is not None:
+        kind = "constant" if constant else draw(st.sampled_from(["random", "random", "bands"]))
     if kind == "constant":
         a = draw(st.integers(A, B))
         b = draw(st.integers(a, B))
@@ -111,13 +114,11 @@ def materialise_grid(g, H, W, A, B):
 @st.composite
 def grids_cases(draw):
     pair = draw(gen.image_pair(min_rows=7, max_rows=12, min_cols=10, max_cols=16, max_val=20, masks=True))
-    A = draw(st.integers(-4, 0))
-    B = A + draw(st.integers(1, 6))
-    g = draw(grid_spec(pair["H"], pair["W"], A, B))
-    if g["kind"] == "constant":
-        pipe = draw(gen.legal_pipeline(validation="maybe"))
-    else:
-        pipe = mc_pipeline(draw, False)
+    constant = draw(st.integers(0, 3)) == 0
+    pipe = draw(gen.legal_pipeline(validation="maybe")) if constant else mc_pipeline(draw, False)
+    A = draw(st.integers(-4, 2))
+    A, B = gen.clamp_interval([A, A + draw(st.integers(1, 6))], pair["W"], pipe)
+    g = draw(grid_spec(pair["H"], pair["W"], A, B, constant))
     return {"pair": pair, "AB": [A, B], "grid": g, "pipeline": pipe}
 
 
@@ -171,10 +172,10 @@ def grids_body(ctx: Ctx, p: dict) -> None:
 @st.composite
 def range_cases(draw):
     pair = draw(gen.image_pair(min_rows=7, max_rows=12, min_cols=10, max_cols=16, max_val=20, masks=True))
-    A = draw(st.integers(-4, 0))
-    B = A + draw(st.integers(0, 6))
-    use_grid = draw(st.booleans())
     pipe = draw(gen.legal_pipeline(validation="maybe"))
+    A = draw(st.integers(-5, 3))
+    A, B = gen.clamp_interval([A, A + draw(st.integers(0, 5))], pair["W"], pipe)
+    use_grid = draw(st.booleans())
     p = {"pair": pair, "AB": [A, B], "pipeline": pipe}
     if use_grid:
         p["grid"] = draw(grid_spec(pair["H"], pair["W"], A, B))
@@ -204,7 +205,8 @@ def range_body(ctx: Ctx, p: dict) -> None:
             axis = machine.left_cv.coords["disp"].data.astype(np.float64)
             state["subpix"] = int(machine.left_cv.attrs["subpixel"])
             on = np.isin(d0.astype(np.float64), axis)
-            if (((m0 & INV) == 0) & ~on).any():
+            state["off_mask"] = ((m0 & INV) == 0) & ~on
+            if state["off_mask"].any():
                 state["offsample_refined"] = True
 
     def after(machine, step, kind):
@@ -219,6 +221,15 @@ def range_body(ctx: Ctx, p: dict) -> None:
             state["prev"] = d.copy()
             if kind in ("disparity", "refinement") and state["pure"]:
                 bad = valid & ~((d >= lo - 1e-6) & (d <= hi + 1e-6))
+                if kind == "refinement" and bad.any() and state.get("off_mask") is not None:
+                    # a repeated refinement receives off-sample disparities: the known finding, bounded by half a sample
+                    half_ = 0.5 / state["subpix"] + 1e-6
+                    known = bad & state["off_mask"] & (d >= lo - half_) & (d <= hi + half_)
+                    if known.any():
+                        r, c = np.argwhere(known)[0]
+                        ctx.violation("C09/refinement-of-off-sample-disparity-leaves-interval",
+                                      f"pixel {(int(r), int(c))} d={d[r, c]} interval [{lo[r, c]},{hi[r, c]}] step {step}")
+                    bad = bad & ~known
                 if bad.any():
                     r, c = np.argwhere(bad)[0]
                     ctx.violation(f"C09/disparity-outside-own-interval-after-{kind}",
